@@ -1,7 +1,567 @@
-//! C35 — not implemented yet.
-use vmon::report::Args;
+//! C35 — distance kernels agree with the scalar definitions; nearest-centroid assignment is minimal.
+//!
+//! The per-path monitors live in `k35.rs` (shared with the Miri leg). This file drives them over ALL
+//! vector lengths 0..=1100 for every element type and adds the argmin / k-means assignment oracles
+//! (lance-index is too heavy for Miri, so those stay native).
+use crate::k35::*;
+use crate::prng::{fnv, Rng};
+use arrow_array::types::{Float16Type, Float32Type, Float64Type, UInt8Type};
+use arrow_array::{Array, FixedSizeListArray, PrimitiveArray};
+use arrow_schema::{DataType, Field};
+use half::f16;
+use lance_index::vector::kmeans::{compute_partition, compute_partitions_arrow_array, kmeans_find_partitions_arrow_array};
+use lance_linalg::distance::DistanceType;
+use lance_linalg::kernels::{argmax, argmax_opt, argmin, argmin_opt, argmin_value, argmin_value_float, argmin_value_float_with_bias};
+use serde_json::json;
+use std::sync::atomic::{AtomicU64, Ordering};
+use std::sync::Arc;
+use vmon::report::{Args, Report};
 
-pub fn run(_args: &Args) -> i32 {
-    eprintln!("HARNESS-ERROR C35 not implemented");
-    2
+const MAX_LEN: usize = 1100;
+const TYPES: [&str; 5] = ["f32", "f64", "f16", "bf16", "u8"];
+
+fn unit_rng(seed: u64, ty: usize, n: usize, rep: u64) -> Rng {
+    Rng::for_case(seed, (3u64 << 40) + ((ty * 2048 + n) as u64) * 4096 + rep)
+}
+
+fn run_unit(seed: u64, ty: usize, n: usize, rep: u64, policy: &Policy, corrupt: bool, out: &mut Out) {
+    let mut rng = unit_rng(seed, ty, n, rep);
+    let shape = SHAPES[((n as u64 + rep * 5 + ty as u64) % SHAPES.len() as u64) as usize];
+    match ty {
+        0 => check_case::<f32>(&mut rng, n, shape, policy, corrupt, out),
+        1 => check_case::<f64>(&mut rng, n, shape, policy, corrupt, out),
+        2 => check_case::<f16>(&mut rng, n, shape, policy, corrupt, out),
+        3 => check_case::<half::bf16>(&mut rng, n, shape, policy, corrupt, out),
+        _ => check_case::<u8>(&mut rng, n, shape, policy, corrupt, out),
+    }
+}
+
+fn flush(report: &Report, out: Out, ctx: serde_json::Value) {
+    report.cases(out.evaluations);
+    for s in out.nontrivial {
+        report.nontrivial(s);
+    }
+    for (k, v) in out.counters {
+        report.count(&k, v);
+    }
+    for f in out.failures {
+        let mut w = ctx.clone();
+        w["detail"] = json!(f.detail);
+        report.violation(&f.sig, &f.what, w);
+    }
+}
+
+// ---------------------------------------------------------------------------------------------
+// argmin family
+// ---------------------------------------------------------------------------------------------
+
+fn check_argmin(rng: &mut Rng, corrupt: bool, out: &mut Out) {
+    let n = *rng.pick(&[0usize, 1, 2, 3, 7, 8, 9, 31, 100, 1000]);
+    let mode = rng.below(5);
+    let v: Vec<f32> = (0..n)
+        .map(|_| match mode {
+            0 => (rng.f64() * 2.0 - 1.0) as f32 * 100.0,
+            1 => rng.below(4) as f32, // many ties
+            2 => {
+                if rng.chance(1, 3) {
+                    f32::NAN
+                } else {
+                    rng.f64() as f32
+                }
+            }
+            3 => {
+                if rng.chance(1, 3) {
+                    f32::INFINITY
+                } else if rng.chance(1, 5) {
+                    f32::NEG_INFINITY
+                } else {
+                    rng.f64() as f32 - 0.5
+                }
+            }
+            _ => f32::NAN,
+        })
+        .collect();
+    out.evaluations += 1;
+    let min_ok = |i: u32, strict_bound: f32| -> Option<String> {
+        let i = i as usize;
+        if i >= v.len() {
+            return Some(format!("index {i} out of range {}", v.len()));
+        }
+        if v[i].is_nan() {
+            return Some(format!("index {i} is NaN"));
+        }
+        let _ = strict_bound;
+        if let Some(j) = v.iter().position(|x| *x < v[i]) {
+            return Some(format!("index {i} ({}) is not minimal: v[{j}] = {}", v[i], v[j]));
+        }
+        None
+    };
+    let adjust = |r: Option<u32>| -> Option<u32> {
+        if corrupt {
+            r.map(|i| (i + 1) % (v.len().max(1) as u32))
+        } else {
+            r
+        }
+    };
+    // argmin / argmin_value / argmin_opt: None iff no value compares below T::max_value()
+    let any_below_max = v.iter().any(|x| *x < f32::MAX);
+    for (path, got) in [
+        ("argmin", adjust(argmin(v.iter().copied()))),
+        ("argmin_value", adjust(argmin_value(v.iter().copied()).map(|x| x.0))),
+        ("argmin_opt", adjust(argmin_opt(v.iter().map(|x| Some(*x))))),
+    ] {
+        match got {
+            Some(i) => {
+                if let Some(d) = min_ok(i, f32::MAX) {
+                    out.failures.push(Failure { sig: format!("argmin-not-minimal-{path}"), what: "argmin returned a non-minimal index".into(), detail: format!("mode {mode} n {n}: {d}") });
+                } else {
+                    out.count("argmin_judged", 1);
+                }
+            }
+            None => {
+                if any_below_max {
+                    out.failures.push(Failure { sig: format!("argmin-none-{path}"), what: "argmin returned None although a comparable value exists".into(), detail: format!("mode {mode} n {n} v[..8]={:?}", &v[..n.min(8)]) });
+                } else {
+                    out.count("argmin_none_ok", 1);
+                }
+            }
+        }
+    }
+    // float version: None iff nothing is < +inf
+    let any_below_inf = v.iter().any(|x| *x < f32::INFINITY);
+    match adjust(argmin_value_float(v.iter().copied()).map(|x| x.0)) {
+        Some(i) => {
+            if let Some(d) = min_ok(i, f32::INFINITY) {
+                out.failures.push(Failure { sig: "argmin-not-minimal-argmin_value_float".into(), what: "argmin returned a non-minimal index".into(), detail: format!("mode {mode} n {n}: {d}") });
+            } else {
+                out.count("argmin_judged", 1);
+            }
+        }
+        None => {
+            if any_below_inf {
+                out.failures.push(Failure { sig: "argmin-none-argmin_value_float".into(), what: "argmin returned None although a finite value exists".into(), detail: format!("mode {mode} n {n}") });
+            }
+        }
+    }
+    // with bias: minimal value + bias, returns the un-biased value
+    let bias: Vec<f32> = (0..n).map(|_| rng.below(3) as f32).collect();
+    let got = argmin_value_float_with_bias(v.iter().copied(), Some(bias.iter().copied()));
+    let sums: Vec<f32> = v.iter().zip(&bias).map(|(a, b)| a + b).collect();
+    match got {
+        Some((i, val)) => {
+            let i = i as usize;
+            let bad = i >= n || sums[i].is_nan() || sums.iter().any(|s| *s < sums[i]) || val.to_bits() != v[i].to_bits();
+            if bad {
+                out.failures.push(Failure { sig: "argmin-not-minimal-with_bias".into(), what: "argmin_value_float_with_bias returned a non-minimal index / wrong value".into(), detail: format!("mode {mode} n {n} i {i} val {val}") });
+            } else {
+                out.count("argmin_judged", 1);
+            }
+        }
+        None => {
+            if sums.iter().any(|s| *s < f32::INFINITY) {
+                out.failures.push(Failure { sig: "argmin-none-with_bias".into(), what: "argmin_value_float_with_bias returned None although a finite value exists".into(), detail: format!("mode {mode} n {n}") });
+            }
+        }
+    }
+    // argmax: None iff nothing compares above T::min_value()
+    let any_above_min = v.iter().any(|x| *x > f32::MIN);
+    for (path, got) in [("argmax", argmax(v.iter().copied())), ("argmax_opt", argmax_opt(v.iter().map(|x| Some(*x))))] {
+        match got {
+            Some(i) => {
+                let i = i as usize;
+                if i >= n || v[i].is_nan() || v.iter().any(|x| *x > v[i]) {
+                    out.failures.push(Failure { sig: format!("argmax-not-maximal-{path}"), what: "argmax returned a non-maximal index".into(), detail: format!("mode {mode} n {n} i {i}") });
+                } else {
+                    out.count("argmin_judged", 1);
+                }
+            }
+            None => {
+                if any_above_min {
+                    out.failures.push(Failure { sig: format!("argmax-none-{path}"), what: "argmax returned None although a comparable value exists".into(), detail: format!("mode {mode} n {n}") });
+                }
+            }
+        }
+    }
+    // integer argmin
+    let vi: Vec<i32> = (0..n).map(|_| rng.range(-5, 5) as i32).collect();
+    match argmin(vi.iter().copied()) {
+        Some(i) => {
+            if vi.iter().any(|x| *x < vi[i as usize]) {
+                out.failures.push(Failure { sig: "argmin-not-minimal-i32".into(), what: "argmin returned a non-minimal index".into(), detail: format!("{vi:?} -> {i}") });
+            }
+        }
+        None => {
+            if n > 0 {
+                out.failures.push(Failure { sig: "argmin-none-i32".into(), what: "argmin returned None for a non-empty integer list".into(), detail: format!("{vi:?}") });
+            }
+        }
+    }
+    if n > 1 && mode != 4 {
+        out.nontrivial.push(fnv(format!("argmin|{n}|{mode}").as_bytes()));
+    }
+}
+
+// ---------------------------------------------------------------------------------------------
+// nearest-centroid assignment
+// ---------------------------------------------------------------------------------------------
+
+fn fsl_of<T: Elem>(vals: &[T], dim: usize) -> Option<FixedSizeListArray> {
+    let arr = T::arrow(vals)?;
+    let field = Arc::new(Field::new("item", arr.data_type().clone(), true));
+    Some(FixedSizeListArray::new(field, dim as i32, arr, None))
+}
+
+fn check_kmeans<T: Elem>(rng: &mut Rng, corrupt: bool, out: &mut Out) {
+    let dim = *rng.pick(&[1usize, 2, 3, 7, 8, 9, 15, 16, 17, 31, 32, 33, 64, 100, 128, 255, 256, 257, 700]);
+    let k = rng.urange(1, 24);
+    let m = rng.urange(1, 40);
+    let is_u8 = T::ACC == Acc::Int;
+    let dt = if is_u8 { DistanceType::Hamming } else if rng.bool() { DistanceType::L2 } else { DistanceType::Dot };
+    let scale = if is_u8 { 1.0 } else { 10f64.powi(rng.range(-3, 3) as i32) };
+    let near = rng.chance(1, 3); // vectors close to centroids => small gaps between candidates
+    let cents: Vec<f64> = (0..k * dim).map(|_| if is_u8 { rng.below(256) as f64 } else { (rng.f64() * 2.0 - 1.0) * scale }).collect();
+    let mut vecs: Vec<f64> = Vec::with_capacity(m * dim);
+    let mut nan_rows = vec![false; m];
+    for r in 0..m {
+        let c = rng.usize_below(k);
+        let all_nan = !is_u8 && rng.chance(1, 15);
+        nan_rows[r] = all_nan;
+        for i in 0..dim {
+            let v = if all_nan {
+                f64::NAN
+            } else if is_u8 {
+                if near { (cents[c * dim + i] as u8 ^ (if rng.chance(1, 8) { 1 << rng.below(8) } else { 0 })) as f64 } else { rng.below(256) as f64 }
+            } else if near {
+                cents[c * dim + i] + (rng.f64() - 0.5) * scale * 1e-2
+            } else {
+                (rng.f64() * 2.0 - 1.0) * scale
+            };
+            vecs.push(v);
+        }
+    }
+    // duplicate centroid => exact ties
+    let mut cents = cents;
+    if k > 1 && rng.chance(1, 4) {
+        let (a, b) = (rng.usize_below(k), rng.usize_below(k));
+        for i in 0..dim {
+            cents[a * dim + i] = cents[b * dim + i];
+        }
+    }
+    let ct: Vec<T> = cents.iter().map(|v| T::from_f64(*v)).collect();
+    let vt: Vec<T> = vecs.iter().map(|v| T::from_f64(*v)).collect();
+    let cf: Vec<f64> = ct.iter().map(|v| v.to_f64()).collect();
+    let vf: Vec<f64> = vt.iter().map(|v| v.to_f64()).collect();
+    out.evaluations += 1;
+    // reference distances + per-pair tolerance
+    let acc = T::ACC;
+    let gam = |n: usize| -> f64 {
+        let u = match acc { Acc::F32 => 5.96e-8, Acc::F64Cast => 1.2e-16, Acc::Int => 0.0 };
+        2.0 * (n as f64 + 8.0) * u + 2.0 * 5.96e-8
+    };
+    let dist = |r: usize, c: usize| -> (f64, f64) {
+        let x = &vf[r * dim..(r + 1) * dim];
+        let y = &cf[c * dim..(c + 1) * dim];
+        match dt {
+            DistanceType::Hamming => {
+                let d: u32 = x.iter().zip(y).map(|(a, b)| ((*a as u8) ^ (*b as u8)).count_ones()).sum();
+                (d as f64, 0.0)
+            }
+            DistanceType::L2 => {
+                let rf = reference(x, y);
+                (rf.sq, gam(dim) * rf.sq + 1e-40)
+            }
+            _ => {
+                let rf = reference(x, y);
+                (1.0 - rf.dot, gam(dim) * (rf.dot_abs + (1.0 - rf.dot).abs()) + 1e-40)
+            }
+        }
+    };
+    let (Some(cfsl), Some(vfsl)) = (fsl_of(&ct, dim), fsl_of(&vt, dim)) else { return };
+    let tname = T::NAME;
+    let dname = format!("{dt}");
+    let res = std::panic::catch_unwind(std::panic::AssertUnwindSafe(|| compute_partitions_arrow_array(&cfsl, &vfsl, dt)));
+    let (parts, dists) = match res {
+        Err(p) => {
+            out.failures.push(Failure { sig: format!("kmeans-panic-compute_partitions-{tname}-{dname}"), what: "compute_partitions_arrow_array panicked".into(), detail: panic_msg(p) });
+            return;
+        }
+        Ok(Err(e)) => {
+            out.failures.push(Failure { sig: format!("kmeans-err-compute_partitions-{tname}-{dname}"), what: "compute_partitions_arrow_array failed on matching types".into(), detail: e.to_string() });
+            return;
+        }
+        Ok(Ok(x)) => x,
+    };
+    if parts.len() != m || dists.len() != m {
+        out.failures.push(Failure { sig: format!("kmeans-len-compute_partitions-{tname}"), what: "wrong number of assignments".into(), detail: format!("m {m} got {} / {}", parts.len(), dists.len()) });
+        return;
+    }
+    for r in 0..m {
+        let all: Vec<(f64, f64)> = (0..k).map(|c| dist(r, c)).collect();
+        let best = all.iter().map(|(d, t)| d + t).fold(f64::INFINITY, f64::min);
+        let got = if corrupt { parts[r].map(|c| (c + 1) % k as u32) } else { parts[r] };
+        match got {
+            None => {
+                if !nan_rows[r] {
+                    out.failures.push(Failure { sig: format!("kmeans-unassigned-{tname}-{dname}"), what: "a valid vector was not assigned to any centroid".into(), detail: format!("dim {dim} k {k} row {r}") });
+                } else {
+                    out.count("kmeans_nan_rows_unassigned", 1);
+                }
+            }
+            Some(c) => {
+                let c = c as usize;
+                if nan_rows[r] {
+                    out.failures.push(Failure { sig: format!("kmeans-nan-assigned-{tname}-{dname}"), what: "an all-NaN vector was assigned to a centroid (documented: None)".into(), detail: format!("dim {dim} k {k} row {r} -> {c}") });
+                    continue;
+                }
+                if c >= k {
+                    out.failures.push(Failure { sig: format!("kmeans-out-of-range-{tname}"), what: "assigned centroid id out of range".into(), detail: format!("k {k} got {c}") });
+                    continue;
+                }
+                let (d, t) = all[c];
+                if d - t > best {
+                    let (bi, _) = all.iter().enumerate().min_by(|a, b| a.1 .0.total_cmp(&b.1 .0)).unwrap();
+                    out.failures.push(Failure {
+                        sig: format!("kmeans-not-nearest-{tname}-{dname}"),
+                        what: "assigned centroid is not at minimal distance (beyond rounding tolerance)".into(),
+                        detail: format!("dim {dim} k {k} row {r}: chose {c} at true distance {d:e}, centroid {bi} is at {:e} (tol {t:e})", all[bi].0),
+                    });
+                } else {
+                    out.count("kmeans_assignments_judged", 1);
+                }
+                if let Some(gd) = dists[r] {
+                    if ((gd as f64) - d).abs() > t + 6e-8 * d.abs() {
+                        out.failures.push(Failure { sig: format!("kmeans-dist-{tname}-{dname}"), what: "distance returned with the assignment differs from the true distance".into(), detail: format!("dim {dim} row {r} c {c}: got {gd:e} expected {d:e} tol {t:e}") });
+                    }
+                }
+                // single-vector entry point (float types, L2 / Dot)
+            }
+        }
+    }
+    // kmeans_find_partitions: nprobes smallest
+    if !nan_rows[0] {
+        let nprobes = rng.urange(1, k);
+        let q = T::arrow(&vt[0..dim]).unwrap();
+        if let Ok(Ok((idx, ds))) = std::panic::catch_unwind(std::panic::AssertUnwindSafe(|| kmeans_find_partitions_arrow_array(&cfsl, q.as_ref(), nprobes, dt))) {
+            let chosen: Vec<usize> = idx.values().iter().map(|x| *x as usize).collect();
+            let all: Vec<(f64, f64)> = (0..k).map(|c| dist(0, c)).collect();
+            let distinct: std::collections::BTreeSet<usize> = chosen.iter().copied().collect();
+            if chosen.len() != nprobes.min(k) || distinct.len() != chosen.len() {
+                out.failures.push(Failure { sig: format!("kmeans-find-count-{tname}"), what: "find_partitions returned a wrong number of (distinct) partitions".into(), detail: format!("k {k} nprobes {nprobes} got {chosen:?}") });
+            } else {
+                let worst_in = chosen.iter().map(|c| all[*c].0 - all[*c].1).fold(f64::NEG_INFINITY, f64::max);
+                let best_out = (0..k).filter(|c| !distinct.contains(c)).map(|c| all[c].0 + all[c].1).fold(f64::INFINITY, f64::min);
+                if worst_in > best_out {
+                    out.failures.push(Failure { sig: format!("kmeans-find-not-nearest-{tname}-{dname}"), what: "find_partitions omitted a strictly nearer partition".into(), detail: format!("dim {dim} k {k} nprobes {nprobes}: worst chosen {worst_in:e} > best omitted {best_out:e}") });
+                } else {
+                    out.count("kmeans_find_partitions_judged", 1);
+                }
+                for (p, c) in chosen.iter().enumerate() {
+                    let (d, t) = all[*c];
+                    if ((ds.value(p) as f64) - d).abs() > t + 6e-8 * d.abs() {
+                        out.failures.push(Failure { sig: format!("kmeans-find-dist-{tname}-{dname}"), what: "find_partitions distance differs from the true distance".into(), detail: format!("c {c} got {:e} expected {d:e}", ds.value(p)) });
+                    }
+                }
+            }
+        } else {
+            out.failures.push(Failure { sig: format!("kmeans-find-failed-{tname}-{dname}"), what: "kmeans_find_partitions_arrow_array failed / panicked on matching types".into(), detail: format!("dim {dim} k {k}") });
+        }
+    }
+    if k > 1 {
+        out.nontrivial.push(fnv(format!("kmeans|{tname}|{dname}|{dim}|{k}|{near}").as_bytes()));
+    }
+}
+
+fn check_compute_partition_f32(rng: &mut Rng, out: &mut Out) {
+    let dim = *rng.pick(&[1usize, 3, 8, 15, 16, 17, 33, 128, 257]);
+    let k = rng.urange(1, 20);
+    let dt = if rng.bool() { DistanceType::L2 } else { DistanceType::Dot };
+    let c: Vec<f32> = (0..k * dim).map(|_| (rng.f64() * 2.0 - 1.0) as f32).collect();
+    let v: Vec<f32> = (0..dim).map(|_| (rng.f64() * 2.0 - 1.0) as f32).collect();
+    let vf: Vec<f64> = v.iter().map(|x| *x as f64).collect();
+    out.evaluations += 1;
+    let d: Vec<(f64, f64)> = (0..k)
+        .map(|j| {
+            let rf = reference(&vf, &c[j * dim..(j + 1) * dim].iter().map(|x| *x as f64).collect::<Vec<_>>());
+            let g = 2.0 * (dim as f64 + 8.0) * 5.96e-8;
+            if dt == DistanceType::L2 { (rf.sq, g * rf.sq) } else { (1.0 - rf.dot, g * (rf.dot_abs + (1.0 - rf.dot).abs())) }
+        })
+        .collect();
+    match compute_partition(&c, &v, dt) {
+        None => out.failures.push(Failure { sig: "kmeans-unassigned-compute_partition-f32".into(), what: "compute_partition returned None for a finite vector".into(), detail: format!("dim {dim} k {k}") }),
+        Some(ci) => {
+            let ci = ci as usize;
+            let best = d.iter().map(|(a, t)| a + t).fold(f64::INFINITY, f64::min);
+            if ci >= k || d[ci].0 - d[ci].1 > best {
+                out.failures.push(Failure { sig: format!("kmeans-not-nearest-compute_partition-f32-{dt}"), what: "compute_partition chose a non-minimal centroid".into(), detail: format!("dim {dim} k {k} chose {ci}") });
+            } else {
+                out.count("kmeans_assignments_judged", 1);
+            }
+        }
+    }
+}
+
+// ---------------------------------------------------------------------------------------------
+
+fn selftest(args: &Args) -> i32 {
+    let policy = probe_policy();
+    let mut fired = 0;
+    let mut total = 0;
+    for ty in 0..5 {
+        for n in [1usize, 7, 8, 9, 33, 64, 257, 1100] {
+            let mut out = Out::default();
+            run_unit(args.seed, ty, n, 0, &policy, true, &mut out);
+            total += 1;
+            if !out.failures.is_empty() {
+                fired += 1;
+            } else {
+                eprintln!("selftest: perturbation NOT detected ty {} n {n}", TYPES[ty]);
+            }
+        }
+    }
+    for n in [1usize, 63, 64, 65, 1100] {
+        let mut out = Out::default();
+        let mut rng = Rng::for_case(args.seed, n as u64);
+        check_hamming(&mut rng, n, &policy, true, &mut out);
+        total += 1;
+        fired += (!out.failures.is_empty()) as u32;
+    }
+    for i in 0..20u64 {
+        let mut out = Out::default();
+        let mut rng = Rng::for_case(args.seed, 1000 + i);
+        check_kmeans::<f32>(&mut rng, true, &mut out);
+        total += 1;
+        if !out.failures.is_empty() {
+            fired += 1;
+        } else {
+            eprintln!("selftest: kmeans corruption NOT detected case {i}");
+        }
+    }
+    let mut am = 0;
+    for i in 0..40u64 {
+        let mut out = Out::default();
+        let mut rng = Rng::for_case(args.seed, 2000 + i);
+        check_argmin(&mut rng, true, &mut out);
+        am += (!out.failures.is_empty()) as u32;
+    }
+    println!("SELFTEST C35 fired={fired} of {total}; argmin corruptions detected in {am} of 40 lists (lists with ties / n<=1 cannot detect)");
+    if fired == total && am >= 10 { 0 } else { 2 }
+}
+
+pub fn run(args: &Args) -> i32 {
+    if args.extra.contains_key("selftest") {
+        return selftest(args);
+    }
+    let report = Report::new(
+        args,
+        "exploration",
+        "Every public L2 / cosine / dot / norm / hamming entry point (simple, trait, batch, Arrow batch with sliced inputs and nulls, DistanceType fn pointers) for f32/f64/f16/bf16/u8 (+Int8 Arrow) at ALL vector lengths 0..=1100 x value shapes (uniform, positive, sparse, near-equal, constant, zero vectors, mixed magnitudes, NaN/inf) x scales 1e-30..1e30 at random sub-slice offsets, compared with the f64 scalar definition under tolerance c*(n+8)*u*sum|terms| (+underflow term); non-trivial iff n>0 and the reference L2 is non-zero and inside the f32 range, distinct by (type, length, shape, scale decade, equal-scale flag). Plus argmin family on lists with NaN/inf/ties and nearest-centroid assignment (compute_partitions_arrow_array, compute_partition, kmeans_find_partitions) against brute force in f64.",
+        (40, 600),
+    )
+    .with_min_nontrivial(2000);
+    let policy = probe_policy();
+    report.set("policy_recorded_first", json!(policy));
+    report.assume("NaN / zero-norm / empty-vector behaviour is taken from a probe of the f32 simple paths at start-up (see policy_recorded_first) and then required of every other path, type and length");
+    report.assume("cosine is judged only when norms^2 and sum|x*y| lie in [1e-30, 1e37] (no intermediate overflow / underflow in f32); dot is not judged when sum|x*y| can overflow a partial f32 sum although the result is representable; such cases are counted as values_out_of_f32_range_not_judged");
+    report.assume("the optional fp16 C kernels (feature fp16kernels) are not built by default and are not covered");
+    let nan_ok = ["l2/nan-input", "dot/nan-input", "cosine/nan-input"].iter().all(|k| policy.get(*k).map(|s| s == "nan").unwrap_or(false));
+    if !nan_ok {
+        report.inconclusive("recorded NaN policy is not NaN-propagation; 'special' shape is judged against IEEE semantics and may need review");
+    }
+
+    if let Some(path) = &args.replay {
+        if std::env::var("VERIF_EVIDENCE_OUT").is_err() {
+            std::env::set_var("VERIF_EVIDENCE_OUT", format!("{}/work/replay-evidence-C35.json", vmon::report::verif_root()));
+        }
+        let v: serde_json::Value = std::fs::read_to_string(path).ok().and_then(|t| serde_json::from_str(&t).ok()).unwrap_or_default();
+        let w = &v["witness"];
+        let mut out = Out::default();
+        match w["engine"].as_str() {
+            Some("paths") => run_unit(w["seed"].as_u64().unwrap_or(1), w["ty"].as_u64().unwrap_or(0) as usize, w["n"].as_u64().unwrap_or(0) as usize, w["rep"].as_u64().unwrap_or(0), &policy, false, &mut out),
+            _ => {
+                report.harness_error("replay supports engine=paths witnesses only (others: rerun with the same seed)");
+                return report.finish();
+            }
+        }
+        println!("REPLAY C35: {} failures", out.failures.len());
+        let code = if out.failures.is_empty() { 0 } else { 1 };
+        flush(&report, out, w.clone());
+        let _ = report.finish();
+        return code;
+    }
+
+    let reps: u64 = args.tier.pick(5, 120);
+    let threads = std::thread::available_parallelism().map(|x| x.get()).unwrap_or(8).min(16);
+    // ---- all lengths x all types ----
+    let next = AtomicU64::new(0);
+    let total_units = (5 * (MAX_LEN + 1)) as u64;
+    let lengths_done = AtomicU64::new(0);
+    std::thread::scope(|s| {
+        for _ in 0..threads {
+            s.spawn(|| loop {
+                let u = next.fetch_add(1, Ordering::Relaxed);
+                if u >= total_units {
+                    break;
+                }
+                // interleave: longest vectors first so that the time cap cannot starve the tails
+                let ty = (u % 5) as usize;
+                let n = MAX_LEN - (u / 5) as usize;
+                for rep in 0..reps {
+                    if rep > 0 && !report.time_left() {
+                        break;
+                    }
+                    let mut out = Out::default();
+                    run_unit(args.seed, ty, n, rep, &policy, false, &mut out);
+                    if ty == 0 {
+                        let mut rng = unit_rng(args.seed, 7, n, rep);
+                        check_f32_only(&mut rng, n, &mut out);
+                        check_int8_arrow(&mut rng, n, &mut out);
+                    }
+                    if ty == 4 {
+                        let mut rng = unit_rng(args.seed, 6, n, rep);
+                        check_hamming(&mut rng, n, &policy, false, &mut out);
+                    }
+                    flush(&report, out, json!({"engine":"paths","seed":args.seed,"ty":ty,"type":TYPES[ty],"n":n,"rep":rep}));
+                }
+                lengths_done.fetch_add(1, Ordering::Relaxed);
+            });
+        }
+    });
+    report.set("lengths_covered_per_type", json!(format!("0..={MAX_LEN} (all)")));
+    report.exhaustive(lengths_done.load(Ordering::Relaxed) == total_units);
+    report.set("exhaustive_subspace", json!("vector length 0..=1100 for each of f32/f64/f16/bf16/u8 (>=1 case per (type,length))"));
+
+    // ---- argmin + centroid assignment ----
+    let n_arg: u64 = args.tier.pick(4000, 200_000);
+    let n_km: u64 = args.tier.pick(1200, 60_000);
+    let next = AtomicU64::new(0);
+    std::thread::scope(|s| {
+        for _ in 0..threads {
+            s.spawn(|| loop {
+                let i = next.fetch_add(1, Ordering::Relaxed);
+                if i >= n_arg + n_km || !report.time_left() {
+                    break;
+                }
+                let mut out = Out::default();
+                let mut rng = Rng::for_case(args.seed, (4u64 << 40) + i);
+                let engine;
+                if i < n_arg {
+                    engine = "argmin";
+                    check_argmin(&mut rng, false, &mut out);
+                } else {
+                    engine = "kmeans";
+                    match i % 5 {
+                        0 => check_kmeans::<f32>(&mut rng, false, &mut out),
+                        1 => check_kmeans::<f64>(&mut rng, false, &mut out),
+                        2 => check_kmeans::<f16>(&mut rng, false, &mut out),
+                        3 => check_kmeans::<u8>(&mut rng, false, &mut out),
+                        _ => check_compute_partition_f32(&mut rng, &mut out),
+                    }
+                }
+                flush(&report, out, json!({"engine":engine,"seed":args.seed,"case":i}));
+            });
+        }
+    });
+    let _ = (PrimitiveArray::<Float32Type>::from(vec![0f32]).len(), DataType::Float16, std::marker::PhantomData::<(Float16Type, Float64Type, UInt8Type)>);
+    report.sample(json!({"example": "f32 n=1100 uniform: l2 / dot / cosine via 25 entry points, batch of 1-4 vectors, Arrow FSL sliced with nulls; see counters values_judged / policy_checks"}));
+    report.finish()
 }
